@@ -108,6 +108,8 @@ DAfterOK(e) ==
             \* spaces derived from it are deleted and derived anew (handles to them die)
             LET Rn(v) == IF v[1] = "ce" /\ v[3] = <<>> /\ v[4] = e.c /\ v[2] = e.s
                          THEN CeObj(v[2], <<>>, e.c2) ELSE v IN
+            IF e.s \notin D.sp \/ e.c \notin DOMAIN D.cells[e.s] THEN D   \* (only a defined cells is renamed)
+            ELSE
             AdoptInputs([D EXCEPT !.cells[e.s] = Upd(Drop(@, {e.c}), e.c2, D.cells[e.s][e.c]),
                   !.refs  = [s \in DOMAIN @ |-> [n \in DOMAIN @[s] |-> [@[s][n] EXCEPT !.v = Rn(@)]]],
                   !.grefs = [n \in DOMAIN @ |-> [@[n] EXCEPT !.v = Rn(@)]]], e)
